@@ -68,10 +68,12 @@ def shard(col, shard_i, ngrammars, ninputs, full):
             B = rng.choice([('pat', r'\)+'), ('tok', 'c'), 'eof'])
             T1, T2 = ('tok', 'x'), ('tok', 'z')
             hand = rng.choice(['none', 'override-recursive', 'lone-call'])
-            rules = [('start', [], ('choice', [('seq', [('call', 'r'), T1]), ('call', 's'), ('seq', [('call', 'r'), T2]), ('seq', [('call', 'h'), ('tok', '!')]),
+            rules = [('start', [], ('choice', [('seq', [('call', 'r'), T1]), ('call', 's'), ('seq', [('call', 'r'), T2]),
+                                              ('seq', [('tok', 'a'), 'void', ('call', 'Tk'), ('tok', 'x')]), ('seq', [('tok', 'a'), ('call', 'Tk'), ('tok', 'y')]),
+                                              ('seq', [('call', 'h'), ('tok', '!')]),
                                               ('seq', [('tok', '('), ('named', False, 'inner', ('call', 'h')), ('tok', ')'), ('tok', '?')]),
                                               ('seq', [('call', 'h'), ('tok', '?')]), ('call', 'h')])),
-                     ('r', [], ('seq', [P, A])), ('s', [], ('seq', [P, B]))]
+                     ('r', [], ('seq', [P, A])), ('s', [], ('seq', [P, B])), ('Tk', [], ('pat', r'[b-z]+'))]
             if hand == 'override-recursive':
                 rules.append(('h', [], ('choice', [('seq', [('tok', '('), ('over', False, ('call', 'h')), ('tok', ')')]), ('named', False, 'v', ('pat', r'\w+'))])))
             elif hand == 'lone-call':
@@ -79,7 +81,7 @@ def shard(col, shard_i, ngrammars, ninputs, full):
             else:
                 rules.append(('h', [], ('named', False, 'v', ('pat', r'\w+'))))
             g = {'rules': rules, 'directives': {}, 'keywords': []}
-            texts = ['(]', '( ]', '(b', '(b x', '(b z', 'a', 'a b', 'a b 1 z', '(x)', '(x)?', '((x))?', 'x?', 'x', '(', '()', 'a c', '(b 1 y'][:max(ninputs, 12)]
+            texts = ['a q y', 'a q x', 'aq y', 'a  q y', '(]', '( ]', '(b', '(b x', '(b z', 'a', 'a b', 'a b 1 z', '(x)', '(x)?', '((x))?', 'x?', 'x', '(', '()', 'a c', '(b 1 y'][:max(ninputs, 16)]
             col.count('grammar.retry-and-handing-on')
             lrec = False
         elif lrec:
@@ -183,6 +185,52 @@ def shard(col, shard_i, ngrammars, ninputs, full):
         col.sample(cases[len(cases) // 2].describe())
 
 
+PROBES = [
+    # (grammar, texts): constructs outside the generator's IR; every configuration must give the same outcome (parseinfo entries erased)
+    ("start = 'a' ^`note` /[a-z]+/ $ ;", ['a b', 'ab', 'a  b']),
+    ("start = 'a' ^^`warn {a}` Tok $ ;\nTok = /[a-z]+/ ;", ['a b', 'ab']),
+    ("start = 'a' $-> 'b' $ ;", ['a\nb', 'a b', 'a \n b']),
+    ("start = '^'>{num}+ $ ;\nnum = /\\d/ ;", ['2 ^ 3 ^ 2', '2', '2 ^']),
+    ("start = '-'<{num}+ $ ;\nnum = /\\d/ ;", ['5 - 2 - 1', '5 -']),
+    ("start = b $ ;\na = 'x' ;\nb < a = 'y' ;", ['x y', 'y']),
+    ("a = 'x' 'y' ;\nstart = >a 'z' $ ;", ['x y z', 'x z']),
+    ("start(A, k=1) = {item}+ $ ;\n@nomemo\nitem = v:/[a-z]/ | n:/\\d/ ;", ['a 1 b', '']),
+]
+
+
+def shard_probes(col, shard_i):
+    import tatsu
+    import contextlib
+    import io
+    mats = [dict(), dict(memoization=False), dict(perlinememos=0.01), dict(prune_memos_on_cut=False), dict(parseinfo=True),
+            dict(parseinfo=True, memoization=False), dict(trace=True, colorize=False), dict(parseinfo=True, perlinememos=1)]
+    for g, texts in PROBES:
+        try:
+            m = tatsu.compile(g)
+        except Exception as e:  # noqa
+            col.count('probe.not-compilable:' + type(e).__name__)
+            continue
+        for t in texts:
+            outs = []
+            for kw in mats:
+                try:
+                    with contextlib.redirect_stderr(io.StringIO()), contextlib.redirect_stdout(io.StringIO()):
+                        r = m.parse(t, start='start', **kw)
+                    outs.append(('ok', strip_info(E.canon(r))))
+                except tatsu.exceptions.FailedParse as e:
+                    outs.append(('fail', type(e).__name__))
+                except Exception as e:  # noqa
+                    outs.append(('exc', type(e).__name__))
+            col.case(['probe', g, t], nontrivial=True)
+            col.count('probe.compared', len(mats) - 1)
+            for kw, o in zip(mats[1:], outs[1:]):
+                if o != outs[0]:
+                    col.violation(f'oracle:config-changes-outcome:probe:{sorted(kw)}:{outs[0][0]}->{o[0]}',
+                                  f'the outcome of a probe grammar differs between default settings and {kw}',
+                                  {'oracle': 'same outcome under every configuration (probe)', 'grammar': g, 'text': t, 'settings': kw,
+                                   'reference': outs[0], 'outcome': o})
+
+
 def main():
     chk = Check(PID)
     chk.rule = ('random non-left-recursive grammars (cut-heavy) and layered left-recursive template grammars x inputs, each run under a '
@@ -197,8 +245,10 @@ def main():
     if ok:
         if chk.quick:
             vlib.run_sharded(chk, shard, 14, extra=(12, 8, False))
+            vlib.run_sharded(chk, shard_probes, 1, procs=1)
         else:
             vlib.run_sharded(chk, shard, 28, extra=(30, 10, True))
+            vlib.run_sharded(chk, shard_probes, 1, procs=1)
         chk.obligation('E1 x configuration matrix: model.parse(**settings) vs modelrun', 'correspondence',
                        not any(v['signature'].startswith('E1cfg') for v in chk.violations))
         chk.obligation('same outcome under every configuration (implementation only)', 'oracle',
